@@ -7,14 +7,14 @@ from vlib.refops import OutOfDomain
 
 PID = "C01"
 RULE = ("dlgen programs (typed, stratified, grounded by construction; EDB inline and in .facts files; negation, "
-        "constraints, functors, records, aggregates, recursion) run by the interpreter and compared relation by relation "
+        "constraints, functors, records, ADTs (construction and destructuring), disjunctions, multi-head clauses, range generators, casts, aggregates, recursion) run by the interpreter and compared relation by relation "
         "(both directions, duplicates counted) with the naive reference evaluator dlref. Non-trivial = some rule fires AND "
         "(a recursive stratum needs >=2 productive rounds OR a negated atom filters a tuple OR aggregates see both an empty "
         "and a non-empty group OR a record destructuring both matches and fails); distinct by hash of the program text.")
 
 
 def feat_for(tier):
-    return dlgen.Feat()
+    return dlgen.Feat(adts=True, ranges=True, disjunctions=True, multihead=True)
 
 
 def judge(P, st=None, args=()):
@@ -68,7 +68,30 @@ def judge(P, st=None, args=()):
             st.classes["trivial"] += 1
         if any(isinstance(t, dlgen.RecT) for r in P.rels.values() for t in r.types):
             st.classes["uses_records"] += 1
+        if "F25_excluded" in P.tags:
+            st.known["F25:aggregate with injected variable in a recursive rule"] += 1
     return case
+
+
+F25_PROGRAM = """.decl e0(a0:number, a1:number)
+e0(0, 3). e0(0, -2). e0(4, 0).
+.decl r2(a0:number)
+r2(-3). r2(4). r2(0).
+.decl r3(a0:number)
+r3(0). r3(1). r3(2).
+.decl r4(a0:number, a1:unsigned)
+.output r4
+r4(0, 1).
+r4(v47, v42) :- r4(v41, v42), v47 = count : { r3(v43), r2(v46), !e0(v46, v41) }.
+"""
+
+
+def probe_known(st):
+    for f in common.findings_for(PID):
+        if f["key"] == "F25":
+            res = runner.run_program(F25_PROGRAM, {})
+            if res.rr.rc != 0 or sorted(res.outputs.get("r4") or []) != sorted(["0\t1", "6\t1", "9\t1"]):
+                st.known_lines.append(f["what"])
 
 
 def worker(shard, seed, n, params):
@@ -107,6 +130,7 @@ def main(tier, seed):
     t0 = time.time()
     total = 3000 if tier == "quick" else 60000
     st = common.run_sharded(worker, seed, total, {"tier": tier})
+    probe_known(st)
     return common.finish(PID, tier, seed, "exploration", st, RULE, t0, replay_fn=replay_case,
                          assumptions=["dlref implements the documented semantics", "cases outside the defined value domain are discarded and counted",
                                       "aggregate bodies use named variables only (F7)"],
